@@ -10,12 +10,12 @@ namespace CmdTransport
 /-- All clauses of the property on one observation. -/
 def P (c : Class) (o : Obs) : Prop :=
   P_returns o ∧ P_bounded c o ∧ P_childGone o ∧ P_noGoroutine o ∧ P_waited o ∧ P_result o ∧ P_termGrace o ∧
-  P_killGrace o ∧ P_giveUp o ∧ P_order c o ∧ P_second o ∧ P_pending o
+  P_killGrace o ∧ P_giveUp o ∧ P_order c o ∧ P_second o ∧ P_pending o ∧ P_eofFirst o
 
 /-- The monitor is silent exactly when every clause of the property holds on the observation. -/
 theorem monitor_complete (c : Class) (o : Obs) : monitor c o = none ↔ P c o := by
   unfold monitor P P_returns P_bounded P_childGone P_noGoroutine P_waited P_result P_termGrace P_killGrace
-    P_giveUp P_order P_second P_pending
+    P_giveUp P_order P_second P_pending P_eofFirst
   constructor
   · intro h
     by_cases h1 : o.res = .hang
@@ -57,7 +57,9 @@ theorem monitor_complete (c : Class) (o : Obs) : monitor c o = none ↔ P c o :=
     by_cases h13 : o.pend = .hang
     · rw [if_pos h13] at h; cases h
     rw [if_neg h13] at h
-    refine ⟨h1, by omega, by simpa using h3, by simpa using h4, ?_, ?_, ?_, ?_, ?_, ?_, ⟨h11, h12⟩, h13⟩
+    by_cases h14 : o.term ≠ .none ∧ o.eofSeen = false
+    · rw [if_pos h14] at h; cases h
+    refine ⟨h1, by omega, by simpa using h3, by simpa using h4, ?_, ?_, ?_, ?_, ?_, ?_, ⟨h11, h12⟩, h13, ?_⟩
     · intro hr hd; exact h5 ⟨hr, hd⟩
     · constructor
       · intro hr
@@ -67,7 +69,10 @@ theorem monitor_complete (c : Class) (o : Obs) : monitor c o = none ↔ P c o :=
     · intro hd; exact Nat.le_of_not_lt fun hlt => h8 ⟨hd, hlt⟩
     · intro hd; exact Nat.le_of_not_lt fun hlt => h9 ⟨hd, hlt⟩
     · intro hc hd hn; exact h10 ⟨hc, hd, hn⟩
-  · intro ⟨h1, h2, h3, h4, h5, h6, h7, h8, h9, h10, h11, h12⟩
+    · intro ht; cases he : o.eofSeen with
+      | true => rfl
+      | false => exact absurd ⟨ht, he⟩ h14
+  · intro ⟨h1, h2, h3, h4, h5, h6, h7, h8, h9, h10, h11, h12, h13⟩
     have e1 : ¬ o.res = .hang := h1
     have e2 : ¬ 3 + c.slack < o.eb := by omega
     have e3 : ¬ o.gone = false := by simp [h3]
@@ -84,8 +89,9 @@ theorem monitor_complete (c : Class) (o : Obs) : monitor c o = none ↔ P c o :=
     have e8 : ¬ (o.death = .sk ∧ o.eb < 2) := fun ⟨a, b⟩ => by have := h8 a; omega
     have e9 : ¬ (o.res = .unresp ∧ o.eb < 3) := fun ⟨a, b⟩ => by have := h9 a; omega
     have e10 : ¬ (c.term ≠ .dfl ∧ o.death = .sk ∧ o.term = .none) := fun ⟨a, b, d⟩ => h10 a b d
+    have e14 : ¬ (o.term ≠ .none ∧ o.eofSeen = false) := fun ⟨a, b⟩ => by rw [h13 a] at b; cases b
     simp only [if_neg e1, if_neg e2, if_neg e3, if_neg e4, if_neg e5, if_neg e6, if_neg e7, if_neg e8, if_neg e9,
-      if_neg e10, if_neg h11.1, if_neg h11.2, if_neg h12]
+      if_neg e10, if_neg h11.1, if_neg h11.2, if_neg h12, if_neg e14]
 
 /-- Whatever the monitor reports, the property is violated. -/
 theorem monitor_sound (c : Class) (o : Obs) (x : Clause) (h : monitor c o = some x) : ¬ P c o := by
@@ -108,37 +114,38 @@ def violates (c : Class) (o : Obs) : Clause → Prop
   | .secondHang => ¬ P_second o
   | .secondDiffers => ¬ P_second o
   | .pendingHang => ¬ P_pending o
+  | .termWithoutEof => ¬ P_eofFirst o
 
 theorem sound_clause (c : Class) (o : Obs) (x : Clause) (h : monitor c o = some x) : violates c o x := by
   unfold monitor at h
   by_cases h1 : o.res = .hang
   · rw [if_pos h1] at h; injection h with h; subst h
-    simp only [violates, P_returns, P_bounded, P_childGone, P_noGoroutine, P_waited, P_result, P_termGrace, P_killGrace, P_giveUp, P_order, P_second, P_pending]
+    simp only [violates, P_returns, P_bounded, P_childGone, P_noGoroutine, P_waited, P_result, P_termGrace, P_killGrace, P_giveUp, P_order, P_second, P_pending, P_eofFirst]
     simp [h1]
   rw [if_neg h1] at h
   by_cases h2 : 3 + c.slack < o.eb
   · rw [if_pos h2] at h; injection h with h; subst h
-    simp only [violates, P_returns, P_bounded, P_childGone, P_noGoroutine, P_waited, P_result, P_termGrace, P_killGrace, P_giveUp, P_order, P_second, P_pending]
+    simp only [violates, P_returns, P_bounded, P_childGone, P_noGoroutine, P_waited, P_result, P_termGrace, P_killGrace, P_giveUp, P_order, P_second, P_pending, P_eofFirst]
     omega
   rw [if_neg h2] at h
   by_cases h3 : o.gone = false
   · rw [if_pos h3] at h; injection h with h; subst h
-    simp only [violates, P_returns, P_bounded, P_childGone, P_noGoroutine, P_waited, P_result, P_termGrace, P_killGrace, P_giveUp, P_order, P_second, P_pending]
+    simp only [violates, P_returns, P_bounded, P_childGone, P_noGoroutine, P_waited, P_result, P_termGrace, P_killGrace, P_giveUp, P_order, P_second, P_pending, P_eofFirst]
     simp [h3]
   rw [if_neg h3] at h
   by_cases h4 : o.leak = true
   · rw [if_pos h4] at h; injection h with h; subst h
-    simp only [violates, P_returns, P_bounded, P_childGone, P_noGoroutine, P_waited, P_result, P_termGrace, P_killGrace, P_giveUp, P_order, P_second, P_pending]
+    simp only [violates, P_returns, P_bounded, P_childGone, P_noGoroutine, P_waited, P_result, P_termGrace, P_killGrace, P_giveUp, P_order, P_second, P_pending, P_eofFirst]
     simp [h4]
   rw [if_neg h4] at h
   by_cases h5 : (o.res = .nil ∨ o.res = .exiterr) ∧ o.death = .nr
   · rw [if_pos h5] at h; injection h with h; subst h
-    simp only [violates, P_returns, P_bounded, P_childGone, P_noGoroutine, P_waited, P_result, P_termGrace, P_killGrace, P_giveUp, P_order, P_second, P_pending]
+    simp only [violates, P_returns, P_bounded, P_childGone, P_noGoroutine, P_waited, P_result, P_termGrace, P_killGrace, P_giveUp, P_order, P_second, P_pending, P_eofFirst]
     intro hw; exact hw h5.1 h5.2
   rw [if_neg h5] at h
   by_cases h6 : (o.res = .nil ∧ o.death ≠ .e0) ∨ (o.res = .exiterr ∧ o.death = .e0)
   · rw [if_pos h6] at h; injection h with h; subst h
-    simp only [violates, P_returns, P_bounded, P_childGone, P_noGoroutine, P_waited, P_result, P_termGrace, P_killGrace, P_giveUp, P_order, P_second, P_pending]
+    simp only [violates, P_returns, P_bounded, P_childGone, P_noGoroutine, P_waited, P_result, P_termGrace, P_killGrace, P_giveUp, P_order, P_second, P_pending, P_eofFirst]
     intro hw
     rcases h6 with ⟨a, b⟩ | ⟨a, b⟩
     · rcases hw.1 a with h' | h'
@@ -148,39 +155,44 @@ theorem sound_clause (c : Class) (o : Obs) (x : Clause) (h : monitor c o = some 
   rw [if_neg h6] at h
   by_cases h7 : o.term = .neg ∨ o.term = .at 0
   · rw [if_pos h7] at h; injection h with h; subst h
-    simp only [violates, P_returns, P_bounded, P_childGone, P_noGoroutine, P_waited, P_result, P_termGrace, P_killGrace, P_giveUp, P_order, P_second, P_pending]
+    simp only [violates, P_returns, P_bounded, P_childGone, P_noGoroutine, P_waited, P_result, P_termGrace, P_killGrace, P_giveUp, P_order, P_second, P_pending, P_eofFirst]
     intro hw; exact h7.elim hw.1 hw.2
   rw [if_neg h7] at h
   by_cases h8 : o.death = .sk ∧ o.eb < 2
   · rw [if_pos h8] at h; injection h with h; subst h
-    simp only [violates, P_returns, P_bounded, P_childGone, P_noGoroutine, P_waited, P_result, P_termGrace, P_killGrace, P_giveUp, P_order, P_second, P_pending]
+    simp only [violates, P_returns, P_bounded, P_childGone, P_noGoroutine, P_waited, P_result, P_termGrace, P_killGrace, P_giveUp, P_order, P_second, P_pending, P_eofFirst]
     intro hw; have := hw h8.1; omega
   rw [if_neg h8] at h
   by_cases h9 : o.res = .unresp ∧ o.eb < 3
   · rw [if_pos h9] at h; injection h with h; subst h
-    simp only [violates, P_returns, P_bounded, P_childGone, P_noGoroutine, P_waited, P_result, P_termGrace, P_killGrace, P_giveUp, P_order, P_second, P_pending]
+    simp only [violates, P_returns, P_bounded, P_childGone, P_noGoroutine, P_waited, P_result, P_termGrace, P_killGrace, P_giveUp, P_order, P_second, P_pending, P_eofFirst]
     intro hw; have := hw h9.1; omega
   rw [if_neg h9] at h
   by_cases h10 : c.term ≠ .dfl ∧ o.death = .sk ∧ o.term = .none
   · rw [if_pos h10] at h; injection h with h; subst h
-    simp only [violates, P_returns, P_bounded, P_childGone, P_noGoroutine, P_waited, P_result, P_termGrace, P_killGrace, P_giveUp, P_order, P_second, P_pending]
+    simp only [violates, P_returns, P_bounded, P_childGone, P_noGoroutine, P_waited, P_result, P_termGrace, P_killGrace, P_giveUp, P_order, P_second, P_pending, P_eofFirst]
     intro hw; exact hw h10.1 h10.2.1 h10.2.2
   rw [if_neg h10] at h
   by_cases h11 : o.second = .hang
   · rw [if_pos h11] at h; injection h with h; subst h
-    simp only [violates, P_returns, P_bounded, P_childGone, P_noGoroutine, P_waited, P_result, P_termGrace, P_killGrace, P_giveUp, P_order, P_second, P_pending]
+    simp only [violates, P_returns, P_bounded, P_childGone, P_noGoroutine, P_waited, P_result, P_termGrace, P_killGrace, P_giveUp, P_order, P_second, P_pending, P_eofFirst]
     intro hw; exact hw.1 h11
   rw [if_neg h11] at h
   by_cases h12 : o.second = .diff
   · rw [if_pos h12] at h; injection h with h; subst h
-    simp only [violates, P_returns, P_bounded, P_childGone, P_noGoroutine, P_waited, P_result, P_termGrace, P_killGrace, P_giveUp, P_order, P_second, P_pending]
+    simp only [violates, P_returns, P_bounded, P_childGone, P_noGoroutine, P_waited, P_result, P_termGrace, P_killGrace, P_giveUp, P_order, P_second, P_pending, P_eofFirst]
     intro hw; exact hw.2 h12
   rw [if_neg h12] at h
   by_cases h13 : o.pend = .hang
   · rw [if_pos h13] at h; injection h with h; subst h
-    simp only [violates, P_returns, P_bounded, P_childGone, P_noGoroutine, P_waited, P_result, P_termGrace, P_killGrace, P_giveUp, P_order, P_second, P_pending]
+    simp only [violates, P_returns, P_bounded, P_childGone, P_noGoroutine, P_waited, P_result, P_termGrace, P_killGrace, P_giveUp, P_order, P_second, P_pending, P_eofFirst]
     intro hw; exact hw h13
   rw [if_neg h13] at h
+  by_cases h14 : o.term ≠ .none ∧ o.eofSeen = false
+  · rw [if_pos h14] at h; injection h with h; subst h
+    simp only [violates, P_eofFirst]
+    intro hw; have := hw h14.1; rw [h14.2] at this; cases this
+  rw [if_neg h14] at h
   cases h
 
 theorem sound_noReturn (c : Class) (o : Obs) (h : monitor c o = some .noReturn) : o.res = .hang := by
@@ -217,6 +229,13 @@ theorem sound_killWithoutTerm (c : Class) (o : Obs) (h : monitor c o = some .kil
   have := sound_clause c o _ h
   simp only [violates, P_order] at this
   exact Classical.byContradiction fun hn => this fun a b d => hn ⟨a, b, d⟩
+theorem sound_termWithoutEof (c : Class) (o : Obs) (h : monitor c o = some .termWithoutEof) : o.term ≠ .none ∧ o.eofSeen = false := by
+  have := sound_clause c o _ h
+  simp only [violates, P_eofFirst] at this
+  refine Classical.byContradiction fun hn => this fun a => ?_
+  cases he : o.eofSeen with
+  | true => rfl
+  | false => exact absurd ⟨a, he⟩ hn
 theorem sound_pendingHang (c : Class) (o : Obs) (h : monitor c o = some .pendingHang) : o.pend = .hang := by
   have := sound_clause c o _ h; simpa [violates, P_pending] using this
 
@@ -253,7 +272,7 @@ theorem model_satisfies_P (c : Class) (e : Env) (htd : 0 < e.td) (hs : e.stdinFa
     rw [Nat.le_div_iff_mul_le htd]; exact hen
   have hskK : deathObs (death e (run e).termAt (run e).killAt) = .sk → (run e).killAt.isSome := by
     intro h; exact death_kill e _ _ (deathObs_sk _ h)
-  refine ⟨?_, ?_, ?_, ?_, ?_, ?_, ?_, ?_, ?_, ?_, ?_, ?_⟩
+  refine ⟨?_, ?_, ?_, ?_, ?_, ?_, ?_, ?_, ?_, ?_, ?_, ?_, ?_⟩
   · -- returns
     simp only [P_returns, modelObs]
     rcases hr with h | h | h | h <;> simp [h.1, resObs] <;> split <;> simp
@@ -320,6 +339,10 @@ theorem model_satisfies_P (c : Class) (e : Env) (htd : 0 < e.td) (hs : e.stdinFa
     cases c.second <;> simp
     all_goals split <;> simp
   · simp only [P_pending, modelObs]; split <;> simp
+  · simp only [P_eofFirst, modelObs]
+    intro _
+    have := stdin_closed e hne
+    simp [this]
 
 /-- `monitor_accepts_model`: the monitor is silent on every run of the model. -/
 theorem monitor_accepts_model (c : Class) (e : Env) (htd : 0 < e.td) (hs : e.stdinFails = false) :
@@ -361,6 +384,7 @@ theorem srv_sound (o : SrvObs) (x : SrvClause) (h : srvMonitor o = some x) :
 example : monitor {} { res := .unresp, eb := 3, gone := false } = some .childLeft := by decide
 example : monitor { term := .ign } { res := .exiterr, death := .sk, eb := 2 } = some .killWithoutTerm := by decide
 example : monitor {} { res := .nil, death := .nr } = some .notWaited := by decide
+example : monitor { term := .h0 } { res := .nil, death := .e0, eb := 1, term := .at 1, eofSeen := false } = some .termWithoutEof := by decide
 example : monitor {} { res := .exiterr, death := .st, eb := 0, term := .at 0 } = some .termEarly := by decide
 
 end CmdTransport
